@@ -371,8 +371,8 @@ func (l *ArrayListOfValue) Concat(other Value) (*ArrayListOfValue, Value) {
 			newList := make(ArrayListOfValue, len(*l), len(*l)+o.Length())
 			copy(newList, *l)
 
-			for i, element := range o.Elements() {
-				newList[len(*l)+i] = element
+			for _, element := range o.Elements() {
+				newList = append(newList, element)
 			}
 
 			return &newList, Undefined
